@@ -1022,10 +1022,75 @@ fn c12_jobs(r: &mut Rng, w: &World, thorough: bool) -> Vec<VJob> {
     jobs
 }
 
+fn iv_sx(i: &anoncreds::data_types::pres_request::NonRevokedInterval) -> String {
+    format!("({} {})", crate::sx::opt(i.from, |x| crate::sx::n(x)), crate::sx::opt(i.to, |x| crate::sx::n(x)))
+}
+
+/// C08: the interval functions driven directly (they are public / re-exported under the guard)
+fn interval_unit_cases(out: &mut Out, r: &mut Rng, thorough: bool) {
+    use anoncreds::data_types::pres_request::NonRevokedInterval as NI;
+    use anoncreds::data_types::rev_reg_def::RevocationRegistryDefinitionId as RId;
+    let bounds: Vec<Option<u64>> = vec![None, Some(0), Some(1), Some(99), Some(100), Some(101), Some(200), Some(u64::MAX - 1), Some(u64::MAX)];
+    let all: Vec<NI> = bounds.iter().flat_map(|f| bounds.iter().map(move |t| NI::new(*f, *t))).collect();
+    for a in &all {
+        for b in &all {
+            if !thorough && r.chance(2, 3) {
+                continue;
+            }
+            let mut m = a.clone();
+            m.compare_and_set(b);
+            let id = out.next_id();
+            out.case(&format!("(C08 {} M {} {} {})", id, iv_sx(a), iv_sx(b), iv_sx(&m)), "unit:compare_and_set", || json!({"kind": "compare_and_set", "a": iv_sx(a), "b": iv_sx(b)}));
+        }
+        for t in [0u64, 1, 98, 99, 100, 101, 102, 199, 200, 201, u64::MAX - 1, u64::MAX] {
+            let ok = a.is_valid(t).is_ok();
+            let id = out.next_id();
+            out.case(&format!("(C08 {} T {} {} {})", id, iv_sx(a), t, crate::sx::boolean(ok)), "unit:is_valid", || json!({"kind": "is_valid", "iv": iv_sx(a), "t": t}));
+        }
+        for map in [vec![], vec![(100u64, 50u64)], vec![(99, 1), (101, 2)], vec![(0, 7), (100, 100), (200, 0)], vec![(u64::MAX, 3)]] {
+            let mut o = a.clone();
+            o.update_with_override(&map.iter().cloned().collect());
+            let id = out.next_id();
+            let ms = crate::sx::list(map.iter(), |(x, y)| format!("({} {})", x, y));
+            out.case(&format!("(C08 {} O {} {} {})", id, iv_sx(a), ms, iv_sx(&o)), "unit:update_with_override", || json!({"kind": "update_with_override", "iv": iv_sx(a)}));
+        }
+    }
+    let n = if thorough { 20000 } else { 3000 };
+    for _ in 0..n {
+        let pick = |r: &mut Rng| -> Option<NI> { if r.chance(1, 4) { None } else { Some(all[r.below(all.len() as u64) as usize].clone()) } };
+        let (l, g) = (pick(r), pick(r));
+        let rr = if r.chance(1, 4) { None } else { Some(if r.chance(1, 2) { "reg:1" } else { "reg:2" }) };
+        let ov: Option<Vec<(String, Vec<(u64, u64)>)>> = match r.below(4) {
+            0 => None,
+            1 => Some(vec![]),
+            2 => Some(vec![("reg:1".into(), vec![(100, 50), (0, 9)])]),
+            _ => Some(vec![("reg:2".into(), vec![(101, 1)]), ("reg:1".into(), vec![(99, 98), (200, 100)])]),
+        };
+        let ovm: Option<std::collections::HashMap<RId, std::collections::HashMap<u64, u64>>> =
+            ov.as_ref().map(|o| o.iter().map(|(k, m)| (RId::new_unchecked(k.clone()), m.iter().cloned().collect())).collect());
+        let rid = rr.map(RId::new_unchecked);
+        let res = anoncreds::verif::get_requested_non_revoked_interval(rid.as_ref(), l.as_ref(), g.as_ref(), ovm.as_ref());
+        let id = out.next_id();
+        let line = format!(
+            "(C08 {} G {} {} {} {} {})",
+            id,
+            crate::sx::opt(rr, |x| crate::sx::s(x)),
+            crate::sx::opt(l.as_ref(), |x| iv_sx(x)),
+            crate::sx::opt(g.as_ref(), |x| iv_sx(x)),
+            crate::sx::opt(ov.as_ref(), |o| crate::sx::list(o.iter(), |(k, m)| format!("({} {})", crate::sx::s(k), crate::sx::list(m.iter(), |(x, y)| format!("({} {})", x, y))))),
+            crate::sx::opt(res.as_ref(), |x| iv_sx(x))
+        );
+        out.case(&line, "unit:get_requested_non_revoked_interval", || json!({"kind": "get_requested_non_revoked_interval"}));
+    }
+}
+
 pub fn run(prop: &str, tier: &str, seed: u64, outdir: &str) {
     let mut out = Out::new(outdir);
     let mut r = Rng::new(seed ^ 0x5EED ^ (prop.bytes().fold(0u64, |a, b| a * 131 + b as u64)));
     let thorough = tier == "thorough";
+    if prop == "C08" {
+        interval_unit_cases(&mut out, &mut r, thorough);
+    }
     let w = World::build(outdir);
     let jobs = match prop {
         "C01" => c01_jobs(&mut r, &w, thorough),
